@@ -58,6 +58,9 @@ class TFLiteSubgraph:
             self.parse_operator(idx, subgraph.Operators(idx))
 
         self.outputs = self.get_tensors_from_indices_remove_duplicates(subgraph.OutputsAsNumpy(), "output")
+        # A tensor may be listed more than once among the subgraph outputs. The graph holds it once; remember which
+        # entry every original position refers to so that the writer can restore the original list
+        self.output_positions = [self.outputs.index(self.tensors[idx]) for idx in subgraph.OutputsAsNumpy()]
         self.inputs = self.get_tensors_from_indices_remove_duplicates(subgraph.InputsAsNumpy(), "input")
         fixup_tensors(self.inputs, self.tensors)
 
@@ -329,6 +332,7 @@ class TFLiteGraph:
                 sg.name = tflite_sg.name
                 sg.original_inputs = tflite_sg.inputs  # Preserve the original input order
                 sg.output_tensors = tflite_sg.outputs
+                sg.original_output_positions = tflite_sg.output_positions
                 sg.virtual_outputs = tflite_sg.virtual_outputs
 
             parsing_step = "parsing metadata length"
